@@ -444,6 +444,19 @@ pub fn finish(ctx: Ctx, verif_dir: &str) -> i32 {
             }
         }
     }
+    {
+        // summary: violations grouped by (first component of the case key, oracle)
+        let mut groups: BTreeMap<(String, String), usize> = BTreeMap::new();
+        for v in &new_violations {
+            let model = v.case_key.split('|').next().unwrap_or("").to_string();
+            let rest = v.key.strip_prefix(&v.case_key).unwrap_or("").trim_start_matches('|');
+            let oracle = rest.split('|').next().unwrap_or("").to_string();
+            *groups.entry((model, oracle)).or_insert(0) += 1;
+        }
+        for ((m, o), n) in groups.iter().take(200) {
+            println!("  group {m} :: {o} = {n}");
+        }
+    }
     if new_violations.len() > 30 {
         println!("  ... and {} more", new_violations.len() - 30);
     }
